@@ -27,7 +27,7 @@ type strCase struct {
 	Sep        string
 }
 
-var strCells = []string{"X", ".", " ", "■", "□", "█", "é", "##", "  ", "X ", "■■", "a□", "", "10", "1", " X", "ab", "a"}
+var strCells = []string{"X", ".", " ", "■", "□", "█", "é", "##", "  ", "X ", "■■", "a□", "", "10", "1", " X", "ab", "a", "X\n", ".\n", "#\n#", "1\r"}
 var strSeps = []string{"\n", "\r\n", "|", ""}
 
 func strMatrix(c strCase) (*gozxing.BitMatrix, *mmodel) {
@@ -89,7 +89,8 @@ func strOne(l *mc.Local, c strCase) {
 		}
 	}
 	// parse back where the text is unambiguous: distinct non-empty cell strings, neither a prefix of
-	// the other, no line-end characters inside them, rows separated by CR / LF
+	// the other, rows separated by CR / LF (a cell string may CONTAIN a line end behind its first
+	// byte: the parser looks for a row end only where a cell starts)
 	if c.Set == "" || c.Unset == "" || c.Set == c.Unset || (c.Sep != "\n" && c.Sep != "\r\n") {
 		return
 	}
